@@ -36,9 +36,10 @@ VARLEN = {"STRING", "BINSTRING", "SHORT_BINSTRING", "BINBYTES", "SHORT_BINBYTES"
 class NonSeekable(io.RawIOBase):
     """Wrapper that hides seek/tell; records how many bytes were pulled from it."""
 
-    def __init__(self, data):
+    def __init__(self, data, chunk=None):
         self._b = io.BytesIO(data)
         self.pulled = 0
+        self._chunk = chunk          # at most this many bytes per read (a short read is not end of input)
 
     def readable(self):
         return True
@@ -47,7 +48,12 @@ class NonSeekable(io.RawIOBase):
         return False
 
     def readinto(self, b):
-        n = self._b.readinto(b)
+        if self._chunk is None:
+            n = self._b.readinto(b)
+        else:
+            got = self._b.read(min(len(b), self._chunk))
+            b[:len(got)] = got
+            n = len(got)
         self.pulled += n or 0
         return n
 
@@ -129,7 +135,7 @@ def check_one(ctx, label, P_in, rng, other):
     agg.count("delimited_by_" + how)
     for tname, T in tails(rng, other):
         data = P + T
-        for kind in ("bytes", "bytearray", "bytesio@k", "file", "buffered", "pipe", "wrapper"):
+        for kind in ("bytes", "bytearray", "bytesio@k", "file", "buffered", "pipe", "wrapper", "wrapper-dribble"):
             ch = h(kind.encode() + b"|" + tname.encode() + b"|" + data)
             if not ctx.mine(ch):
                 continue
@@ -179,7 +185,7 @@ def run_kind(ctx, f, label, kind, tname, P, T, names):
             stream = os.fdopen(rfd, "rb", buffering=0)
             src = stream
         else:
-            stream = NonSeekable(data)
+            stream = NonSeekable(data, chunk=3 if kind == "wrapper-dribble" else None)
             src = stream
         try:
             p = f.Pickled.load(src)
@@ -282,7 +288,7 @@ def stack_checks(ctx, pool, rng, n_stacks):
         stacks.append((i, k, parts, b"".join(parts)))
     # the budgeted stream kind goes first over all stacks: if stack parsing does not terminate it is seen
     # there, and the unbudgeted kinds (which would hang this child) are skipped
-    for kind in ("bytesio", "bytes", "wrapper"):
+    for kind in ("bytesio", "bytes", "wrapper", "wrapper-dribble"):
         for i, k, parts, data in stacks:
             ch = h(b"stack|" + kind.encode() + data)
             if not ctx.mine(ch):
@@ -290,7 +296,7 @@ def stack_checks(ctx, pool, rng, n_stacks):
             if not agg.case(ch, k > 1, {"stack_of": k, "stream": kind, "part_lens": [len(x) for x in parts]}):
                 continue
             try:
-                src = data if kind == "bytes" else (Budgeted(data) if kind == "bytesio" else NonSeekable(data))
+                src = data if kind == "bytes" else (Budgeted(data) if kind == "bytesio" else NonSeekable(data, chunk=5 if kind == "wrapper-dribble" else None))
                 sp = f.StackedPickle.load(src)
             except NoProgress:
                 agg.violation("stack-parse-no-progress",
